@@ -2,17 +2,18 @@
 package c10
 
 import (
-	"time"
 	"bytes"
 	"context"
 	"fmt"
 	"io"
 	"strings"
 	"sync"
+	"time"
 
 	"verif/sched"
 
 	"github.com/open2b/scriggo"
+	"github.com/open2b/scriggo/builtin"
 	"github.com/open2b/scriggo/native"
 )
 
@@ -55,7 +56,7 @@ func nativeType[T any]() any {
 
 // Artefact is a compiled program or template together with a way to run it on an input.
 type Artefact struct {
-	Name  string
+	Name string
 	// Build compiles the artefact. run executes it once with input in (input 2
 	// runs with a cancellable context that is cancelled only after the run,
 	// input 3 with a far deadline); inspect calls the read-only methods of the
@@ -158,7 +159,12 @@ func template(name string, files map[string]string) Artefact {
 				"n":      (*int)(nil),
 				"shared": &shared,
 				"input":  input,
-				"upper":  func(s string) string { sched.YieldHere("upper"); return strings.ToUpper(s) },
+				// the library's own builtins (package builtin), as an embedder declares them
+				"regexp": builtin.RegExp, "sprintf": builtin.Sprintf, "replace": builtin.Replace, "toUpper": builtin.ToUpper,
+				"md5": builtin.Md5, "sha1": builtin.Sha1, "base64": builtin.Base64, "join": builtin.Join, "split": builtin.Split,
+				"capitalize": builtin.Capitalize, "abbreviate": builtin.Abbreviate, "htmlEscape": builtin.HtmlEscape,
+				"sort": builtin.Sort, "reverse": builtin.Reverse,
+				"upper": func(s string) string { sched.YieldHere("upper"); return strings.ToUpper(s) },
 				"list": func(n int) []int {
 					r := make([]int, n)
 					for i := range r {
@@ -325,6 +331,9 @@ func main() {
 			"m.html":     `{% macro Bold(s string) %}<b>{{ s }}{{ v }}</b>{% end %}{% macro Str(i int) string %}#{{ i }}{% end %}`,
 			"p.html":     `<i>{{ v }}{{ n }}</i>`,
 		}),
+		// package builtin called with DIFFERENT arguments by different runs (state the
+		// library keeps between calls would be shared by every run of every artefact)
+		template("builtins", map[string]string{"index.html": `{% if input() % 2 == 0 %}{{ regexp("a+").ReplaceAll(v + "aaa", "<A>") }}{% else %}{{ regexp("[bp]+").ReplaceAll(v + "bbb", "<B>") }}{% end %}|{{ sprintf("%05d", n) }}|{{ md5(v) }}|{{ join(split(v, "a"), "-") }}`}),
 		template("native-env", map[string]string{"index.html": `{{ input() }} {{ upper(v) }} {% for i, x := range list(input() + 1) %}{{ i }}={{ x }};{% end %}{% n = input() * 10 %}{{ n }}`}),
 		template("markdown", map[string]string{
 			"index.html": `<div>{{ render "c.md" }}</div>{{ v }}`,
